@@ -1380,3 +1380,72 @@ Lemma json_tx_stable_all (H : bytes -> bytes) (b64dec : bytes -> option bytes) :
   forall j t n, from_json H b64dec j = Ok t -> storable t ->
   exists t', iter_rt H b64dec n t = Ok t' /\ id H t' = id H t /\ fields t' = fields t.
 Proof. exact (json_tx_stable H (fun x => x) b64dec). Qed.
+
+
+(* ================================================================== *)
+(* Non-vacuity: concrete transactions that meet the hypotheses          *)
+(* ================================================================== *)
+
+Definition ex_H (p : bytes) : bytes := p.                 (* an injective "hash" *)
+Definition ex_dec (s : bytes) : option bytes := Some s.   (* base64 as the identity *)
+
+Definition ex_addr : bytes := str "hx00112233445566778899aabbccddeeff00112233".
+Definition ex_sig : bytes := repeat 1 64 ++ [1].
+
+Definition ex_map (value : bytes) : list (bytes * json) :=
+  [(str "version", JStr (str "0x3")); (str "from", JStr ex_addr); (str "to", JStr ex_addr);
+   (str "value", JStr value); (str "stepLimit", JStr (str "0x186a0"));
+   (str "timestamp", JStr (str "0x5a0")); (str "nid", JStr (str "0x1"));
+   (str "signature", JStr ex_sig); (str "dataType", JStr (str "message"));
+   (str "data", JObj [(str "k.1", JList [JStr (str "a.b"); JNull; JStr (str "{x}")]); (str "", JStr [])])].
+
+Definition ex_res_a : result tx := Eval vm_compute in from_json ex_H ex_dec (JObj (ex_map (str "0xa"))).
+Definition ex_res_b : result tx := Eval vm_compute in from_json ex_H ex_dec (JObj (ex_map (str "0x0A"))).
+
+Definition is_struct (r : result tx) : bool := match r with Ok (TxStruct _) => true | _ => false end.
+Definition is_raw (r : result tx) : bool := match r with Ok (TxRaw _ _) => true | _ => false end.
+
+(* canonical text takes the struct path, "0x0A" the raw fallback *)
+Example ex_paths : is_struct ex_res_a = true /\ is_raw ex_res_b = true.
+Proof. split; reflexivity. Qed.
+
+Example ex_struct_path : forall t, ex_res_a = Ok t ->
+  from_json ex_H ex_dec (JObj (ex_map (str "0xa"))) = Ok t /\ storable t
+  /\ wf_tx ex_dec t /\ icon_top (ex_map (str "0xa")) = true.
+Proof.
+  unfold ex_res_a. intros t E. injection E as <-.
+  split; [vm_compute; reflexivity|]. split; [intros rs; discriminate|].
+  split; [split; vm_compute; reflexivity|vm_compute; reflexivity].
+Qed.
+
+Example ex_raw_path : forall t, ex_res_b = Ok t ->
+  from_json ex_H ex_dec (JObj (ex_map (str "0x0A"))) = Ok t /\ storable t
+  /\ t_value (fields t) = Some 10%Z /\ id ex_H t <> id_struct ex_H (fields t).
+Proof.
+  unfold ex_res_b. intros t E. injection E as <-.
+  split; [vm_compute; reflexivity|]. split; [exact I|]. split; [reflexivity|].
+  vm_compute. discriminate.
+Qed.
+
+(* hex case is not an equivalence of JSON submissions: the two texts of the
+   value 10 give different pre-images *)
+Example ex_hex_case_differs :
+  parse_hexint (str "0x0A") = parse_hexint (str "0xa")
+  /\ pre_map (ex_map (str "0x0A")) <> pre_map (ex_map (str "0xa")).
+Proof. split; [reflexivity|]. vm_compute. discriminate. Qed.
+
+(* the data value of the example with a leading empty string, serialised and read back *)
+Definition ex_value : json :=
+  JObj [(str "k.1", JList [JStr []; JStr (str "a.b"); JNull]); (str "", JStr [])].
+Definition ex_value_ser : option bytes := Eval vm_compute in ser_value ex_value.
+Example ex_parse :
+  icon ex_value = true /\ nf (norm ex_value) = true
+  /\ match ex_value_ser with
+     | Some b => parse_value (jsize (norm ex_value)) (lex b) = Some (norm ex_value, [])
+     | None => False
+     end.
+Proof. split; [reflexivity|]. split; [reflexivity|]. vm_compute. reflexivity. Qed.
+
+(* key order: reversing the entries *)
+Example ex_key_order : pre_map (rev (ex_map (str "0xa"))) = pre_map (ex_map (str "0xa")).
+Proof. vm_compute. reflexivity. Qed.
